@@ -337,7 +337,7 @@ class Ref(object):
                     continue
                 st = None
                 bfail = self.hook("before_step", (path, idx))
-                if not bfail and o == "convert":
+                if not bfail and o.startswith("convert"):
                     st = "error"            # the argument converter raised: the step function is never called
                 elif not bfail:
                     self.calls.append((path, sid))
